@@ -26,7 +26,7 @@ QMODEL = "Queue/JdkModel.v (hand-written step machine of jdkLinkedQueue.go + nod
 
 TIE = ("Tie to /repo, checked on every run: the current sources are copied to build/inst with sync/atomic, sync (and for the pool: channels, select, go, context, timers) "
        "redirected to a cooperative scheduler; every explored schedule of the REAL code (exhaustive DFS under a preemption bound, seeded random, solo-from-a-random-state) "
-       "is replayed access by access on the extracted Coq model - histories, final-state digests and the number of accesses per call must coincide - and independent monitors "
+       "is replayed access by access on the extracted Coq model - histories, final-state digests, the number of accesses per call and the kind of every access (load/store/CAS/add, Lock/RLock/Unlock/RUnlock, channel send/receive/select/close, wait-group, timer, context, queue/adder method; Extract/Kinds.v) must coincide - and independent monitors "
        "on the implementation's histories turn a broken tie into a concrete replay. ")
 
 PT = "Model Pool/PoolModel.v (hand-written step machine: one step per shared access - state word, RWMutex, closed flag, queue channel, wait group, expanded counter, timers, result channels; select non-determinism = oracle stream). Channels/RWMutex/WaitGroup/Timer are modelled by their documented semantics (the shim implementations the lockstep run uses are trusted to match the Go runtime). Liveness and timing clauses are not theorems. Axiom-free."
